@@ -8,8 +8,8 @@ def run(tier, seed):
         profiles=[("nodisc", 2, 100), ("default", 2, 150), ("limits", 2, 80), ("close", 2, 80), ("async", 2, 50), ("default", 3, 40)],
         thorough_profiles=[("nodisc", 2, 800), ("default", 2, 1200), ("limits", 2, 600), ("close", 2, 800), ("async", 2, 600),
                            ("default", 3, 300), ("async", 3, 200)],
-        families=[("holdcell", 250), ("crosslimit", 250), ("bigclaim", 200), ("dustclose", 150), ("asyncsign", 100), ("slots", 12), ("windowlimit", 150), ("badonion", 100), ("dustflood", 60)],
-        thorough_families=[("holdcell", 3000), ("crosslimit", 3000), ("bigclaim", 2000), ("dustclose", 1500), ("asyncsign", 1000), ("slots", 100), ("windowlimit", 2000), ("badonion", 1000), ("dustflood", 600)],
+        families=[("holdcell", 250), ("crosslimit", 250), ("bigclaim", 200), ("dustclose", 150), ("asyncsign", 100), ("slots", 12), ("windowlimit", 150), ("badonion", 100), ("dustflood", 60), ("closecross", 200)],
+        thorough_families=[("holdcell", 3000), ("crosslimit", 3000), ("bigclaim", 2000), ("dustclose", 1500), ("asyncsign", 1000), ("slots", 100), ("windowlimit", 2000), ("badonion", 1000), ("dustflood", 600), ("closecross", 2000)],
         extra_parts=[("quiescence+splicing", splice_common.run_part)],
         assumptions=[a for a in cc.COMMON_ASSUMPTIONS if "splicing" not in a] + [
             "channel opening and cooperative close negotiation are outside the traced part of a run of the BOLT-2 update engine",
